@@ -84,10 +84,21 @@ pub fn run(rep: &mut Rep) {
         let mut bytes = vec![*cmd];
         bytes.extend_from_slice(&encode(&v));
         // a share of the corpus is rejected input: the status must agree across builds too
-        let faulty = i % 5 == 4;
+        let mut faulty = i % 5 == 4;
         if faulty {
             let cut = 1 + rng.usize(bytes.len());
             bytes.truncate(cut);
+        } else if i % 13 == 6 {
+            // bytes behind the parameter map: whatever a build makes of them, every build must agree
+            let extra: &[u8] = match rng.below(5) {
+                0 => &[0x00],
+                1 => &[0xff],
+                2 => &[0xa0],
+                3 => &[0xf6, 0xf6, 0xf6, 0xf6],
+                _ => &[0x01, 0xa1, 0x01, 0x00],
+            };
+            bytes.extend_from_slice(extra);
+            faulty = true;
         }
         if !rep.begin(&format!("dec/{}", name)) {
             continue;
@@ -103,6 +114,45 @@ pub fn run(rep: &mut Rep) {
             Decoded::Panic(p) => format!("PANIC {}", crate::report::panic_site(&p)),
         };
         rep.transcript.push(format!("dec {} {} => {}", case, crate::rng::hash_bytes(&bytes), d));
+    }
+    // ---- authenticator data built from common members only, total size swept across the capacity
+    for total in 560..=800usize {
+        case += 1;
+        if !rep.mine(case) {
+            continue;
+        }
+        if !rep.begin("enc/authenticator-data") {
+            continue;
+        }
+        use ctap_types::ctap2::{make_credential, AuthenticatorDataFlags as F};
+        let mut rng = Rng::derive(seed, "c16a", case);
+        let hash = [0x11u8; 32];
+        let aaguid = [0x22u8; 16];
+        let key = rng.bytes(77);
+        let id = rng.bytes(total - 37 - 16 - 2 - 77);
+        let ad = make_credential::AuthenticatorData {
+            rp_id_hash: &hash,
+            flags: F::USER_PRESENCE | F::ATTESTED_CREDENTIAL_DATA,
+            sign_count: total as u32,
+            attested_credential_data: Some(make_credential::AttestedCredentialData {
+                aaguid: &aaguid,
+                credential_id: &id,
+                credential_public_key: &key,
+            }),
+            extensions: None,
+        };
+        let line = match crate::report::guard(|| ad.serialize().map(|b| b.to_vec()).map_err(|e| e as u8)) {
+            Ok(Ok(b)) => {
+                rep.input(&b, true);
+                format!("Ok {}", hex(&b))
+            }
+            Ok(Err(e)) => {
+                rep.input(&id, true);
+                format!("Err {}", e)
+            }
+            Err(p) => format!("PANIC {}", crate::report::panic_site(&p)),
+        };
+        rep.transcript.push(format!("authdata {} {} => {}", case, total, line));
     }
     // ---- decodable response / nested / enumeration types (everything C15 calls bidirectional)
     let table = crate::mon::c15::schema_table();
